@@ -13,7 +13,7 @@ import ast
 from . import automata as A
 from .core import (FUNC, assignments, call_name, class_attr, const, dotted, enclosing, enclosing_func, is_name, literal,
                    norm, params, parent, walk_local, is_attr)
-from .guards import facts
+from .guards import facts, int_bounds
 
 
 class Shaper:
@@ -64,6 +64,9 @@ class Shaper:
                 else:
                     parts.append(self._formatted(v, func, depth))
             return A.cat(*parts)
+        ar = self.arith(e, func, depth)
+        if ar is not None:
+            return ar
         if isinstance(e, ast.BinOp) and isinstance(e.op, ast.Add):
             return A.cat(self.shape(e.left, func, depth), self.shape(e.right, func, depth))
         if isinstance(e, ast.BinOp) and isinstance(e.op, ast.Mult):
@@ -89,6 +92,48 @@ class Shaper:
         return A.ANY
 
     # -------------------------------------------------------------- pieces
+    def arith(self, e, func, depth):
+        """Shape of str(e) for integer arithmetic: int constants, int(..) / len(..) calls, names whose shape is a set of integer
+        numerals, combined with + - * // % and unary minus.  None when e is not of that form (so that `+` / `*` on strings keep
+        their string meaning).  Only the sign is tracked (NAT / INT): ranges are the business of the rules that need them."""
+        def go(x):
+            if isinstance(x, ast.Constant):
+                if isinstance(x.value, int) and not isinstance(x.value, bool):
+                    return "nat" if x.value >= 0 else "int"
+                return None
+            if isinstance(x, ast.UnaryOp) and isinstance(x.op, (ast.USub, ast.UAdd)):
+                r = go(x.operand)
+                return None if r is None else ("int" if isinstance(x.op, ast.USub) else r)
+            if isinstance(x, ast.BinOp) and isinstance(x.op, (ast.Add, ast.Sub, ast.Mult, ast.FloorDiv, ast.Mod)):
+                l, r = go(x.left), go(x.right)
+                if l is None or r is None:
+                    return None
+                return "nat" if l == r == "nat" and isinstance(x.op, (ast.Add, ast.Mult)) else "int"
+            if isinstance(x, ast.Call) and isinstance(x.func, ast.Name) and x.func.id in ("int", "len") and not x.keywords and len(x.args) == 1:
+                return "nat" if x.func.id == "len" else "int"
+            if isinstance(x, ast.Name):
+                key = (id(func), x.id)
+                if key in self.stack:
+                    return None
+                n0 = len(self.unknown)
+                sh = self._name(x, func, depth + 1)
+                if len(self.unknown) > n0:
+                    del self.unknown[n0:]
+                    return None
+                if A.find_in_a_not_b(sh, A.NAT)[0] is None:
+                    return "nat"
+                if A.find_in_a_not_b(sh, A.INT)[0] is None:
+                    lo, _hi = int_bounds(facts(x), x.id)       # a guard on the way here may exclude the negative values
+                    return "nat" if lo is not None and lo >= 0 else "int"
+                return None
+            return None
+        if not isinstance(e, (ast.BinOp, ast.UnaryOp, ast.Call)):
+            return None
+        if isinstance(e, ast.Call) and not (isinstance(e.func, ast.Name) and e.func.id == "int"):
+            return None
+        r = go(e)
+        return None if r is None else (A.NAT if r == "nat" else A.INT)
+
     def int_shape(self, e, func):
         """Shape of str(e) when e is known to be an int by must-facts."""
         if isinstance(e, ast.Constant) and isinstance(e.value, int) and not isinstance(e.value, bool):
@@ -100,15 +145,8 @@ class Shaper:
                      and is_name(t.args[1], "int") for t, pol in fs)
         if not is_int:
             return None
-        nonneg = False
-        for t, pol in fs:
-            if isinstance(t, ast.Compare) and len(t.ops) == 1 and is_name(t.left, e.id) and const(t.comparators[0], int):
-                c = t.comparators[0].value
-                op = t.ops[0]
-                if (isinstance(op, ast.Lt) and not pol and c <= 0) or (isinstance(op, ast.GtE) and pol and c >= 0) or \
-                        (isinstance(op, ast.Gt) and pol and c >= -1) or (isinstance(op, ast.LtE) and not pol and c <= -1):
-                    nonneg = True
-        return A.NAT if nonneg else A.INT
+        lo, _hi = int_bounds(fs, e.id)       # either operand order, either polarity, chained comparisons
+        return A.NAT if lo is not None and lo >= 0 else A.INT
 
     def _formatted(self, v, func, depth):
         if not isinstance(v, ast.FormattedValue):
@@ -193,6 +231,23 @@ class Shaper:
                     tbl = ds[0] if len(ds) == 1 and len(assignments(func, tbl.id)) == 1 else None
                 if isinstance(tbl, (ast.Tuple, ast.List)) and tbl.elts and all(isinstance(r, (ast.Tuple, ast.List)) and len(r.elts) == len(st.target.elts) for r in tbl.elts):
                     return A.alt(*[self.shape(r.elts[k], func, depth) for r in tbl.elts])
+        if it is None and isinstance(st, ast.Assign) and len(st.targets) == 1 and isinstance(st.targets[0], ast.Tuple) and any(is_name(x, name) for x in st.targets[0].elts):
+            # a, b = (x, y)  /  a, b = (x1, y1) if c else (x2, y2)  : position-wise
+            k = next(i for i, x in enumerate(st.targets[0].elts) if is_name(x, name))
+            arms = [st.value.body, st.value.orelse] if isinstance(st.value, ast.IfExp) else [st.value]
+            if all(isinstance(a, (ast.Tuple, ast.List)) and len(a.elts) == len(st.targets[0].elts) and not any(isinstance(x, ast.Starred) for x in a.elts) for a in arms):
+                return A.alt(*[self.shape(a.elts[k], func, depth) for a in arms])
+            # a, b, c = seq  where a must-fact says all(isinstance(x, int) [and 0 <= x ..] for x in seq): ints
+            if isinstance(st.value, ast.Name):
+                for t, pol in facts(st):
+                    if pol and isinstance(t, ast.Call) and call_name(t) == "all" and len(t.args) == 1 and isinstance(t.args[0], ast.GeneratorExp) \
+                            and len(t.args[0].generators) == 1 and is_name(t.args[0].generators[0].iter, st.value.id) and isinstance(t.args[0].generators[0].target, ast.Name) \
+                            and not t.args[0].generators[0].ifs:
+                        v_ = t.args[0].generators[0].target.id
+                        conj = t.args[0].elt.values if isinstance(t.args[0].elt, ast.BoolOp) and isinstance(t.args[0].elt.op, ast.And) else [t.args[0].elt]
+                        if any(isinstance(c, ast.Call) and call_name(c) == "isinstance" and len(c.args) == 2 and is_name(c.args[0], v_) and is_name(c.args[1], "int") for c in conj):
+                            nonneg = any(isinstance(c, ast.Compare) and const(c.left, int) and c.left.value >= 0 and isinstance(c.ops[0], (ast.LtE, ast.Lt)) and is_name(c.comparators[0], v_) for c in conj)
+                            return A.NAT if nonneg else A.INT
         if it is None:
             self.unknown.append((st, f"binding of {name}"))
             return A.ANY
